@@ -62,6 +62,8 @@ def run(ctx):
     ctx.rule("R6", "header form and bit masks agree: the long-header protect / unprotect functions interpret the first byte with "
                    "LongSpecificBits (reserved 0x0c, pn length 0x03) and the short-header ones with ShortSpecificBits (reserved 0x18, key "
                    "phase 0x04), on both the sending and the receiving side")
+    ctx.rule("R7", "retiring old keys discards the other phase: OneRttPacketKeys::phase_out takes remote[(!cur_phase).as_index()] — the "
+                   "index derives from the negated current phase")
     ctx.rule("R4", "a key update on receipt happens only for a key phase that differs from the current one AND for which no key "
                    "is retained: the previous generation's key survives late (reordered) packets of the old phase")
 
@@ -259,5 +261,24 @@ def run(ctx):
                "bit-mask types used: %s — with the other form's mask the reserved-bit check tests the wrong bits (a long-header type bit is "
                "taken for a reserved bit: every 0-RTT packet is refused) and the packet-number length is read from the wrong place"
                % sorted(used))
+    # ---------------------------------------------------------------- R7
+    po = ctx.anchor("R7", "qbase::packet::keys::OneRttPacketKeys::phase_out")
+    if po:
+        takes = [(i, t) for i, t in po.calls() if re.search(r"option::Option(<.*>|::<.*>)?::take$", callee(t))]
+        ctx.floor("R7", "take() in phase_out", len(takes), 1)
+        for (i, t) in takes:
+            negated = False
+            for pl in deep_places(po, t["args"][0], 4):
+                for e in pl[1:]:
+                    if isinstance(e, str) and e.startswith("[_"):
+                        idx = int(e[2:-1])
+                        for q in deep_places(po, ["c", [idx]], 6):
+                            for og in po.trace_local(q[0]):
+                                if og[0] == "call" and re.search(r"ops::bit::Not>::not$", callee(og[2])):
+                                    negated = True
+            ctx.ob("R7", "%s|discards the key of the phase that is NOT current" % po.short, negated, po.where(t["line"]),
+                   "index of the discarded slot derives from !cur_phase: %s — discarding remote[cur_phase] removes the key in use: the next "
+                   "packet of the current phase panics get_remote's unwrap, and the stale key left behind hides the peer's next update"
+                   % negated)
     ctx.assume("HeaderProtectionKey::sample_len() == 16 for every QUIC v1 cipher suite (RFC 9001 §5.4)")
     ctx.assume("decrypt_packet returns Ok only if the AEAD tag verifies (rustls/ring contract)")
